@@ -106,6 +106,10 @@ class Expression:
                 )
             if isinstance(n, ast.Name) and n.id != "x":
                 raise InvalidExpression("Only the variable name 'x' is allowed")
+            if isinstance(n, (ast.Tuple, ast.List)) and any(
+                isinstance(element, ast.Slice) for element in n.elts
+            ):
+                raise InvalidExpression("Extended slicing is not supported")
             if isinstance(n, ast.Constant) and not isinstance(
                 n.value, (int, float, bool)
             ):
